@@ -43,7 +43,7 @@ impl World {
 /// A continuation thunk that can be told apart by the identity of its body.
 fn marker(tag: char) -> (ZValue, Rc<ZCompute>) {
     let body: Rc<ZCompute> = Rc::new(Computation::Ret(Return(Rc::new(Value::Lit(Literal::Char(tag))))));
-    (ZValue::Thunk(EnvThunk { body: body.clone(), env: zydeco_statics::environment::Env::new() }), body)
+    (ZValue::Thunk(EnvThunk { body: body.clone(), env: thunk_env() }), body)
 }
 
 /// Stub for `<SemValue as Clone>::clone` in the harnesses that pass continuation thunks.
@@ -54,23 +54,35 @@ fn marker(tag: char) -> (ZValue, Rc<ZCompute>) {
 /// post-processing does not survive (measured: no result in 15 min, 45 M SAT variables). This
 /// stub is the derived clone restricted to the `Thunk` variant **plus a checked assertion** that
 /// no other variant is ever cloned: if the code under test clones anything else on a feasible
-/// path, the harness fails instead of silently assuming it away.
+/// path, the harness fails instead of silently assuming it away. The environment of the thunk is
+/// copied bitwise (nothing is ever dropped in these harnesses), see `thunk_env`.
 fn clone_thunk_only(value: &ZValue) -> ZValue {
     match value {
-        | ZValue::Thunk(thunk) => ZValue::Thunk(EnvThunk { body: thunk.body.clone(), env: thunk.env.clone() }),
+        | ZValue::Thunk(thunk) => {
+            ZValue::Thunk(EnvThunk { body: thunk.body.clone(), env: unsafe { std::ptr::read(&thunk.env) } })
+        }
         | _ => panic!("harness invariant: host operations clone only the continuation thunks they receive"),
     }
 }
 
-/// Two continuation thunks over one shared (empty) environment.
+/// The environment captured by the marker thunks. Host operations must never look inside a
+/// continuation's environment, so under the model checker it is an all-zero value that no code
+/// may dereference (any access is a null dereference CBMC reports); constructing a real
+/// `im::HashMap` costs 100 s of symbolic execution per harness. For the native replay (where the
+/// clone stub is not applied and the derived clone runs) tools/replay.py substitutes the marked
+/// expression by `Env::new()`.
+fn thunk_env() -> zydeco_statics::environment::Env<ZValue> {
+    /*@model-only*/ unsafe { std::mem::MaybeUninit::zeroed().assume_init() } /*@replay: zydeco_statics::environment::Env::new() */
+}
+
+/// Two continuation thunks over one shared environment.
 fn markers() -> (ZValue, Rc<ZCompute>, ZValue, Rc<ZCompute>) {
-    let env = zydeco_statics::environment::Env::new();
     let a: Rc<ZCompute> = Rc::new(Computation::Ret(Return(Rc::new(Value::Lit(Literal::Char('A'))))));
     let b: Rc<ZCompute> = Rc::new(Computation::Ret(Return(Rc::new(Value::Lit(Literal::Char('B'))))));
     (
-        ZValue::Thunk(EnvThunk { body: a.clone(), env: env.clone() }),
+        ZValue::Thunk(EnvThunk { body: a.clone(), env: thunk_env() }),
         a,
-        ZValue::Thunk(EnvThunk { body: b.clone(), env }),
+        ZValue::Thunk(EnvThunk { body: b.clone(), env: thunk_env() }),
         b,
     )
 }
